@@ -29,14 +29,15 @@ Oracle (clauses of the statement; keys in parentheses):
   * every value packet a node writes on a connection answers a call it received on that same connection, once (C19/mixup/...), and
     no call is completed with somebody else's result;
   * no exception escapes tick() of any manager (that is what would end run()), nothing is written to stderr as 'Unhandled ERROR',
-    events delivered to handlers carry unchanged dispatcher attributes (C19/hostile/dispatcher-attribute-overwritten/...), valid
-    calls of the raw peer are executed once and answered on its own connection, and a legitimate call issued after the hostile
-    traffic still completes (C19/hostile/...).
+    events delivered to handlers keep the invariants of dispatcher attributes and never show a value the raw peer put into `meta`
+    (C19/hostile/dispatcher-attribute-overwritten/...), plain valid calls of the raw peer are executed once and answered on its own
+    connection, and a legitimate call issued after the hostile traffic still completes (C19/hostile/...).
 When a call fails, the key is refined from ground truth (was one of its packets cut by a read boundary, did its payload contain the
 delimiter, did a foreign value packet with its id arrive on another connection, ...), so that distinct root causes get distinct keys.
 """
 import errno
 import json
+import re
 import socket as _socket
 import traceback
 
@@ -78,7 +79,8 @@ ASSUMPTIONS = ['the `success` flag of a received event is forced to True by Prot
                'what the sender obtains for a firewall-rejected event is not judged (the statement only forbids transmission / dispatch)',
                'calls on a connection whose peer aborted, or of a process that died, are not judged (only loop survival and the other connections are)',
                'hostile packets never use event names of the framework itself (close, stopped, ...): without a firewall a peer may fire any event by design',
-               'a raw peer is owed executions / answers only for the valid calls it sends before its first malformed packet or unprotected meta key; afterwards it only must not harm the loop or other connections',
+               'a raw peer is owed executions / answers only for the plain valid calls (no meta keys) it sends before its first malformed packet; a call with hostile meta keys may '
+               'be executed or dropped (only the attributes of the dispatched event are judged); afterwards the peer only must not harm the loop or other connections',
                'server -> client calls always carry explicit channels (an empty channel tuple is replaced by the receiver, which the statement does not cover)']
 PROBES = ['call:c2s', 'call:s2c', 'call:concurrent', 'call:big', 'completed', 'fault:short_read', 'cut:in-delimiter', 'cut:tiny', 'cut:uniform',
           'cut:in-multibyte', 'packet:split', 'fw:send-blocked', 'fw:recv-blocked', 'topo:B1', 'topo:B2', 'topo:BC', 'hostile:valid', 'hostile:mutated',
@@ -917,9 +919,10 @@ class Sim:
             try:
                 wire_id = json.loads(tx[loc[0]:loc[1] - len(DELIMITER)].decode())['id']
             except (ValueError, KeyError, TypeError):
-                wire_id = None
+                m = re.match(rb'\{"id": (\d+), "name"', tx[loc[0]:loc[0] + 40])       # packet not complete / not parsable: read the id off its head
+                wire_id = int(m.group(1)) if m else None
         # (each guess needs its evidence on the wire, so that another defect is not filed under a known key)
-        if 'delim:call' in feats and loc is not None and wire_id is None:
+        if 'delim:call' in feats and loc is not None and tx[loc[1] - len(DELIMITER):loc[1]] == DELIMITER and packets_of(tx[loc[0]:loc[1]])[0][2] is None:
             return K_DELIM, 'its payload contains the packet delimiter ~~~, which cuts the call packet in two'
         if clause != 'never-ran' and 'delim:result' in feats and any(o is None and done for _, _, o, done in packets_of(back)):
             return K_DELIM, 'its result contains the packet delimiter ~~~, which cuts the result packet in two'
@@ -935,9 +938,11 @@ class Sim:
             vals = [o for _, _, o, _ in packets_of(self.tx_stream(c.conn, rcv)) if is_value(o) and J(o.get('id')) == J(wire_id)]
             nc = len([1 for _, _, o, _ in packets_of(tx) if is_call(o) and J(o.get('id')) == J(wire_id)])
             foreign = [o for o in vals if (not o.get('errors') if c.behav == 'raise' else J(o.get('value')) != J(c.result))]
-            if (len(vals) > nc or foreign) and len(c.dst.conns) > 1:
-                return K_BCAST, 'process %s wrote %d result packet(s) with id %s on connection %d (%d of them not this call\'s result), which carried %d such call(s)' % (
-                    c.dst.tag, len(vals), wire_id, c.conn.k, len(foreign), nc)
+            sent_ids = {J(o.get('id')) for _, _, o, _ in packets_of(tx) if is_call(o)} | {J(wire_id)}
+            stray = [o for _, _, o, done in packets_of(back) if done and is_value(o) and J(o.get('id')) not in sent_ids]
+            if (len(vals) > nc or foreign or stray) and len(c.dst.conns) > 1:
+                return K_BCAST, 'process %s wrote %d result packet(s) with id %s on connection %d (%d of them not this call\'s result), which carried %d such call(s)%s' % (
+                    c.dst.tag, len(vals), wire_id, c.conn.k, len(foreign), nc, '; and %d result(s) with ids never used on it' % len(stray) if stray else '')
             # a value packet with this id that arrived in the sender's process on another connection
             for other in c.src.conns:
                 if other is c.conn:
@@ -1172,7 +1177,7 @@ class Sim:
         for c in self.calls:
             if c.void or c.blocked or c.conn.dead:
                 continue
-            if c.done is None:
+            if c.done is None or not c.runs:          # (completed without having run: keep going, its packet may still be under way)
                 n += 1
         if self.hp is not None and not self.hp.closed:
             for c in self.hcalls:
